@@ -8,6 +8,7 @@ package main
 
 import (
 	"encoding/binary"
+	"encoding/json"
 	"flag"
 	"fmt"
 	"math"
@@ -119,6 +120,11 @@ func canon(v interface{}, uni bool) (out map[string]interface{}) {
 	return map[string]interface{}{"k": "other", "s": gt}
 }
 
+func mustJSON(v interface{}) []byte {
+	b, _ := json.Marshal(v)
+	return b
+}
+
 func errText(err error) string {
 	if err == nil {
 		return ""
@@ -169,6 +175,10 @@ func (r *dtRun) rt(t asetypes.DataType, v interface{}, n int) {
 		return
 	}
 	ev["b"] = ints(b)
+	// encoding a value does not change it (the caller may use it again)
+	if ja, _ := json.Marshal(canon(v, uni)); string(ja) != string(mustJSON(ev["v"])) {
+		ev["err"] = "the value is another one after Bytes: " + string(ja)
+	}
 	// the bytes of the value encoded before this one are still what they were (a caller keeps them until
 	// the whole package is written)
 	ev["stable"] = true
